@@ -226,6 +226,56 @@ for _k in sorted(KINDS):
   POLICY.append(_h.__name__)
 
 
+def _policy2(kind, rec, ur, icuc, st1, st2):
+  """Two calls of the same target under the same options, in contexts st1 then st2, with NO
+  cache reset in between: a decision that depends on the context (DISABLED) must not be
+  remembered; only the documented permanent reasons may be."""
+  want = expected_conversion(kind, rec, ur, icuc, st2)
+  f = KINDS[kind]
+  pos, kw = SHAPES[kind][0]
+  args = tuple(_subst(v, 3, 1, 2) for v in pos)
+  kwargs = None if kw is None else dict((k, _subst(v, 3, 1, 2)) for k, v in kw.items())
+  opts = converter.ConversionOptions(recursive=rec, user_requested=ur,
+                                     internal_convert_user_code=icuc, optional_features=None)
+  conversion._ALLOWLIST_CACHE = type(conversion._ALLOWLIST_CACHE)()
+  direct = rt.obs(lambda *a: _norm(f(*a, **(kwargs or {}))), args)
+  with ag_ctx.ControlStatusCtx(STATUSES[st1]):
+    first = rt.obs(lambda *a: _norm(api.converted_call(f, a, kwargs, options=opts)), args)
+  _COUNTS['convert'] = 0
+  api._convert_actual = _counting_convert_actual
+  try:
+    with ag_ctx.ControlStatusCtx(STATUSES[st2]):
+      second = rt.obs(lambda *a: _norm(api.converted_call(f, a, kwargs, options=opts)), args)
+  finally:
+    api._convert_actual = _orig_convert_actual
+  if not (rt.same_obs(direct, first) and rt.same_obs(direct, second)):
+    return False
+  if want is None:
+    return True
+  return (_COUNTS['convert'] > 0) == want
+
+
+def make_policy2(kind):
+  def h(rec: bool, ur: bool, icuc: bool, st1: int, st2: int) -> bool:
+    """
+    pre: 0 <= st1 <= 2 and 0 <= st2 <= 2
+    post: _
+    """
+    v = deep_realize((rec, ur, icuc, st1, st2))
+    with NoTracing():
+      return _policy2(kind, v[0], v[1], v[2], v[3], v[4])
+
+  h.__name__ = h.__qualname__ = 'policy2_%s' % kind
+  return h
+
+
+POLICY2 = []
+for _k in ('fn', 'bound', 'callable_obj', 'lam', 'part1', 'decorated'):
+  _h = make_policy2(_k)
+  globals()[_h.__name__] = _h
+  POLICY2.append(_h.__name__)
+
+
 # -- fall-back ------------------------------------------------------------------
 def _stages():
   from malt.converters import (break_statements, call_trees, conditional_expressions,
@@ -325,6 +375,11 @@ def reach_twin(rec: bool, ur: bool, icuc: bool, st: int) -> bool:
 
 
 def explain(func, args, kwargs):
+  if func.startswith('policy2_'):
+    kind = func[len('policy2_'):]
+    return 'kind=%s options(rec,ur,icuc)=%r first call in %s, second call in %s: expected_converted(second)=%r' % (
+        kind, tuple(args[:3]), STATUSES[args[3]].name, STATUSES[args[4]].name,
+        expected_conversion(kind, args[0], args[1], args[2], args[4]))
   if func.startswith('policy_'):
     kind = func[len('policy_'):]
     return 'kind=%s options(rec,ur,icuc)=%r status=%s expected_converted=%r' % (
